@@ -211,7 +211,7 @@ func (mo *vmodel) check(db *DB, tag string, keys []string) {
 // partitions their range, so every rotation/block pattern some threshold produces is covered.
 func vconfig(prefix string) Config {
 	return Config{
-		SkipListMaxLevel:       2,
+		SkipListMaxLevel:       1, // native tower heights are random and change memtable sizes; levels are C17's subject
 		SkipListP:              0.5,
 		MemtableByteThreshold:  vf.Int(prefix+"memThr", 1, 120),
 		ImmutableBuffer:        vf.Choose(prefix+"ib", vf.Param("IBMIN", 0), vf.Param("IBMAX", 1)),
